@@ -203,7 +203,8 @@ Section Msgs.
   | M_Empty (e : empty_kind)
   | M_OnKill (killer : eref) (reason : bytes) (poison : bool)
   | M_OnKilled (r : eref)
-  | M_PipeResult (id : bytes) (m : msg) (e : perr)
+  | M_PipeResult (id : bytes) (m : msg) (e : perr)   (* Message != nil *)
+  | M_PipeResultNil (id : bytes) (e : perr)          (* Message == nil (a failure result) *)
   | M_Pong (ping resp : Z)
   | M_Error (code : Z) (text : bytes)
   | M_Command (c : N)
@@ -227,7 +228,7 @@ Section Msgs.
     match m with
     | M_Empty e => Some (kind_of_empty e)
     | M_OnKill _ _ _ => Some K_OnKill | M_OnKilled _ => Some K_OnKilled
-    | M_PipeResult _ _ _ => Some K_PipeResult | M_Pong _ _ => Some K_Pong | M_Error _ _ => Some K_Error
+    | M_PipeResult _ _ _ | M_PipeResultNil _ _ => Some K_PipeResult | M_Pong _ _ => Some K_Pong | M_Error _ _ => Some K_Error
     | M_Command _ => Some K_Command | M_Ping _ => Some K_Ping | M_PongMessage _ _ => Some K_PongMessage
     | M_Scheduler _ _ => Some K_Scheduler | M_JoinRequest _ _ => Some K_JoinRequest
     | M_JoinResponse _ => Some K_JoinResponse | M_Gossip _ => Some K_Gossip
@@ -277,10 +278,14 @@ Section Msgs.
     | M_OnKill k r p => MOk (enc_OnKill k r p)
     | M_OnKilled r => MOk (enc_OnKilled r)
     | M_PipeResult id m' e =>
-        (* WriteMessage(m.Message); error switch; WriteFrom(Id, code, text) *)
+        (* WriteFrom(hasMessage = true); WriteMessage(m.Message); error switch; WriteFrom(Id, code, text) *)
         let*m w := write_message_with enc_body m' in
         let*m ct := perr_wire e in
-        MOk (w ++ put_lp4 id ++ put_i32 (fst ct) ++ put_lp4 (snd ct))
+        MOk (put_bool true ++ w ++ put_lp4 id ++ put_i32 (fst ct) ++ put_lp4 (snd ct))
+    | M_PipeResultNil id e =>
+        (* WriteFrom(hasMessage = false); no message; error switch; WriteFrom(Id, code, text) *)
+        let*m ct := perr_wire e in
+        MOk (put_bool false ++ put_lp4 id ++ put_i32 (fst ct) ++ put_lp4 (snd ct))
     | M_Pong p r => MOk (enc_Pong p r)
     | M_Error c t => MOk (enc_Error c t)
     | M_Command c => MOk (enc_Command c)
@@ -346,8 +351,13 @@ Section Msgs.
         | K_OnKill => let+ x := dec_OnKill in dret (M_OnKill (fst (fst x)) (snd (fst x)) (snd x))
         | K_OnKilled => let+ r := dec_OnKilled in dret (M_OnKilled r)
         | K_PipeResult =>
-            let+ m := rm in let+ id := d_str in let+ c := d_i32 in let+ t := d_str in
-            dret (M_PipeResult id m (perr_of_wire c t))
+            let+ has := d_bool in
+            if has then
+              let+ m := rm in let+ id := d_str in let+ c := d_i32 in let+ t := d_str in
+              dret (M_PipeResult id m (perr_of_wire c t))
+            else
+              let+ id := d_str in let+ c := d_i32 in let+ t := d_str in
+              dret (M_PipeResultNil id (perr_of_wire c t))
         | K_Pong => let+ x := dec_Pong in dret (M_Pong (fst x) (snd x))
         | K_Error => let+ x := dec_Error in dret (M_Error (fst x) (snd x))
         | K_Command => let+ c := dec_Command in dret (M_Command c)
@@ -405,6 +415,7 @@ Section Msgs.
   Fixpoint ty_msg (m : msg) : Prop :=
     match m with
     | M_PipeResult _ m' e => ty_msg m' /\ ty_perr e
+    | M_PipeResultNil _ e => ty_perr e
     | M_Error c _ => in_i32 c
     | M_Command c => c < 256
     | M_Scheduler _ m' => ty_msg m'
@@ -427,6 +438,7 @@ Section Msgs.
     | M_OnKill k r _ => valid_kref k /\ len32 r
     | M_OnKilled k => valid_kref k
     | M_PipeResult id m' e => len32 id /\ valid_msg m' /\ fits m' /\ valid_perr e
+    | M_PipeResultNil id e => len32 id /\ valid_perr e
     | M_Pong p r => in_i64 p /\ in_i64 r           (* instants UnixNano can represent *)
     | M_Error _ t => len32 t
     | M_Command _ => True
@@ -448,6 +460,7 @@ Section Msgs.
 End Msgs.
 
 Arguments M_Empty {U}. Arguments M_OnKill {U}. Arguments M_OnKilled {U}. Arguments M_PipeResult {U}.
+Arguments M_PipeResultNil {U}.
 Arguments M_Pong {U}. Arguments M_Error {U}. Arguments M_Command {U}. Arguments M_Ping {U}.
 Arguments M_PongMessage {U}. Arguments M_Scheduler {U}. Arguments M_JoinRequest {U}.
 Arguments M_JoinResponse {U}. Arguments M_Gossip {U}. Arguments M_GetViewResponse {U}.
